@@ -281,3 +281,88 @@ class RealDom:
         return a.r * bd == b.r * ad
 
     def is_const(s, a): return a.den is None and z3.is_rational_value(a.r)
+
+
+class UFDom(BitsDom):
+    """floats as bit-vectors with UNINTERPRETED arithmetic: fadd/fmul/... are uninterpreted functions over the bit patterns.
+    Used where the property is about *which* elements are combined (views, index tensors, aliasing): equality then follows
+    by congruence in QF_UFBV without bit-blasting IEEE arithmetic.  Sound for proving equalities (anything valid for all
+    interpretations is valid for IEEE); a counterexample may be spurious and is only reported after native replay."""
+    name = 'bits'
+    uf = True
+
+    def _f(s, nm, w, n, ret=None):
+        key = ('uf', nm, w, n)
+        f = s.ufs.get(key)
+        if f is None:
+            srt = z3.BitVecSort(w)
+            f = s.ufs[key] = z3.Function(f'uf_{nm}_{w}', *([srt] * n + [ret or srt]))
+        return f
+
+    def _ap(s, nm, *xs):
+        w = xs[0].w
+        return FV(w, bv=s._f(nm, w, len(xs))(*[bv(x.bits(), w) for x in xs]))
+
+    def bin(s, op, a, b):
+        if op == 'fsub': return s._ap('fadd', a, s.neg(b))
+        if op in ('fadd', 'fmul'):
+            # commutativity instance as a hypothesis (IEEE + and * are commutative up to NaN payload): operand order is then irrelevant
+            x, y = bv(a.bits(), a.w), bv(b.bits(), b.w); f = s._f(op, a.w, 2)
+            if not x.eq(y): s.hyp.append(f(x, y) == f(y, x))
+        return s._ap(op, a, b)
+
+    def fma(s, a, b, c): return s._ap('fma', a, b, c)
+    def neg(s, a):
+        t = a.bits()
+        if not isinstance(t, int) and z3.is_app(t) and t.decl().name() == f'uf_fneg_{a.w}': return FV(a.w, bv=t.arg(0))
+        return s._ap('fneg', a)
+    def abs(s, a): return s._ap('fabs', a)
+    def sqrt(s, a): return s._ap('fsqrt', a)
+    def asfp(s): raise EncodingError('UF domain has no FP view')
+
+    def cmp(s, pred, a, b):
+        if pred == 'true': return 1
+        if pred == 'false': return 0
+        w = a.w; f = s._f('fcmp_' + pred, w, 2, z3.BoolSort())
+        return simp(f(bv(a.bits(), w), bv(b.bits(), w)))
+
+    def select(s, c, a, b): return FV(a.w, bv=simp(z3.If(c, bv(a.bits(), a.w), bv(b.bits(), b.w))))
+    def minnum(s, a, b): return s._ap('fminnum', a, b)
+    def maxnum(s, a, b): return s._ap('fmaxnum', a, b)
+    def fpext(s, a, w): return FV(w, bv=s._cvt('fpext', a.w, w)(bv(a.bits(), a.w)))
+    def fptrunc(s, a, w): return FV(w, bv=s._cvt('fptrunc', a.w, w)(bv(a.bits(), a.w)))
+    def _cvt(s, nm, w0, w1):
+        key = ('cvt', nm, w0, w1); f = s.ufs.get(key)
+        if f is None: f = s.ufs[key] = z3.Function(f'uf_{nm}_{w0}_{w1}', z3.BitVecSort(w0), z3.BitVecSort(w1))
+        return f
+    def sitofp(s, x, iw, w): return FV(w, bv=s._cvt('sitofp', iw, w)(bv(x, iw)))
+    def uitofp(s, x, iw, w): return FV(w, bv=s._cvt('uitofp', iw, w)(bv(x, iw)))
+    def fptosi(s, a, iw): return simp(s._cvt('fptosi', a.w, iw)(bv(a.bits(), a.w)))
+    def fptoui(s, a, iw): return simp(s._cvt('fptoui', a.w, iw)(bv(a.bits(), a.w)))
+    def round(s, a, mode): return s._ap('round_' + mode, a)
+    def copysign(s, a, b): return s._ap('copysign', a, b)
+    def eq(s, a, b): return bv(a.bits(), a.w) == bv(b.bits(), b.w)
+    def const(s, bits64, w): return FV(w, bv=dbits_to(bits64, w))
+
+
+def uf_concrete(t):
+    """evaluate a ground term over the uf_* functions with IEEE semantics (numpy); returns python int bits or None"""
+    import numpy as np
+    if z3.is_bv_value(t): return t.as_long()
+    if not z3.is_app(t): return None
+    nm = t.decl().name()
+    if not nm.startswith('uf_'): return None
+    args = [uf_concrete(t.arg(i)) for i in range(t.num_args())]
+    if any(a is None for a in args): return None
+    parts = nm.split('_'); w = int(parts[-1]); op = '_'.join(parts[1:-1])
+    ft = np.float32 if w == 32 else np.float64
+    def F(b): return np.frombuffer(int(b).to_bytes(w // 8, 'little'), dtype=ft)[0]
+    def B(x): return int.from_bytes(np.array([x], dtype=ft).tobytes(), 'little')
+    with np.errstate(all='ignore'):
+        if op == 'fadd': return B(F(args[0]) + F(args[1]))
+        if op == 'fmul': return B(F(args[0]) * F(args[1]))
+        if op == 'fdiv': return B(F(args[0]) / F(args[1]))
+        if op == 'fneg': return args[0] ^ (1 << (w - 1))
+        if op == 'fabs': return args[0] & ((1 << (w - 1)) - 1)
+        if op == 'fsqrt': return B(np.sqrt(F(args[0])))
+    return None
